@@ -122,11 +122,44 @@ Qed.
 (* ------------------------------------------------------------------ *)
 (* the invariant                                                       *)
 
+Definition all_empty (d : list (N * N)) : Prop :=
+  Forall (fun '(lo, hi) => hi <= lo) d.
+
+(* a buffer is well formed: len <= cap and every non-zero slot lies inside the backing array *)
+Definition buf_wf (b : buf) : Prop :=
+  b_len b <= b_cap b /\ dirty_below (b_cap b) (b_dirty b) = true.
+
 Definition pooled_ok (k : kind) (e : N * N * buf) : Prop :=
-  let '(idx, _, b) := e in idx < nclasses k /\ 2 ^ idx <= b_cap b /\ b_len b = 0.
-Definition held_ok (e : N * buf) : Prop := b_len (snd e) <= b_cap (snd e).
+  let '(idx, _, b) := e in
+  idx < nclasses k /\ 2 ^ idx <= b_cap b /\ b_len b = 0 /\ buf_wf b /\
+  (k = IB -> all_empty (b_dirty b)).
+Definition held_ok (e : N * buf) : Prop := buf_wf (snd e).
 Definition Inv (k : kind) (s : st) : Prop :=
   Forall (pooled_ok k) (pooled s) /\ Forall held_ok (held s).
+
+Lemma all_empty_lowest : forall d, all_empty d -> lowest_dirty d = None.
+Proof.
+  induction 1 as [|[lo hi] d H F IH]; cbn [lowest_dirty]; [reflexivity|].
+  rewrite IH. destruct (N.ltb_spec lo hi); [lia|reflexivity].
+Qed.
+
+Lemma all_empty_below : forall len d, all_empty d -> dirty_below len d = true.
+Proof.
+  induction 1 as [|[lo hi] d H0 F IH]; cbn [dirty_below forallb]; [reflexivity|].
+  apply andb_true_intro. split; [lia|exact IH].
+Qed.
+
+Lemma clear_below_empty : forall len d, dirty_below len d = true -> all_empty (clear_below len d).
+Proof.
+  induction d as [|[lo hi] d IH]; cbn [dirty_below forallb clear_below map]; intro H; [constructor|].
+  apply andb_prop in H. destruct H as [H1 H2]. constructor; [lia|apply IH; assumption].
+Qed.
+
+Lemma clear_below_keeps : forall len c d, dirty_below c d = true -> dirty_below c (clear_below len d) = true.
+Proof.
+  induction d as [|[lo hi] d IH]; cbn [dirty_below forallb clear_below map]; intro H; [reflexivity|].
+  apply andb_prop in H. destruct H as [H1 H2]. apply andb_true_intro. split; [lia|apply IH; assumption].
+Qed.
 
 Lemma take_held_Forall : forall (P : N * buf -> Prop) h l b rest,
   Forall P l -> take_held h l = Some (b, rest) -> P (h, b) /\ Forall P rest.
@@ -154,76 +187,98 @@ Lemma Inv_init : forall k, Inv k init.
 Proof. split; constructor. Qed.
 
 Lemma give_fresh_Inv : forall k s b s' o,
-  Inv k s -> b_len b <= b_cap b -> give_fresh s b = (s', o) -> Inv k s' /\ o = obs_of b.
+  Inv k s -> buf_wf b -> give_fresh s b = (s', o) -> Inv k s' /\ o = obs_of b.
 Proof.
   intros k s b s' o [I1 I2] Hb E. unfold give_fresh in E. inversion E; subst.
   split; [|reflexivity]. split; cbn; [assumption|]. constructor; [exact Hb|assumption].
 Qed.
 
-(* class-indexed part: with an in-range class large enough for n, the result
-   has cap >= n, the length contract, and the invariant is kept *)
+Lemma fresh_wf : forall c l, l <= c -> buf_wf (mkBuf c l []).
+Proof. intros. split; cbn; [assumption|reflexivity]. Qed.
+
+(* what a Get result looks like: cap >= n, length contract, and for item
+   buffers a completely zero backing array *)
+Definition class_res (k : kind) (n : N) (o : obs) : Prop :=
+  exists cp l d, o = ObsBuf cp l d /\ n <= cp /\ l <= cp /\
+                 l = match k with IB => n | _ => 0 end /\ (k = IB -> d = None).
+
 Lemma get_class_ok : forall k s n idx c s' o,
   Inv k s -> idx < nclasses k -> n <= 2 ^ idx ->
-  get_class k s n idx c = (s', o) ->
-  Inv k s' /\ exists cp l d, o = ObsBuf cp l d /\ n <= cp /\ l <= cp /\
-                            l = match k with IB => n | _ => 0 end.
+  get_class k s n idx c = (s', o) -> Inv k s' /\ class_res k n o.
 Proof.
   intros k s n idx c s' o I Hidx Hn E. unfold get_class in E.
   destruct (N.leb_spec (nclasses k) idx); [lia|].
   assert (FRESH : forall s' o,
     give_fresh s (mkBuf (2 ^ idx) (match k with IB => n | _ => 0 end) []) = (s', o) ->
-    Inv k s' /\ exists cp l d, o = ObsBuf cp l d /\ n <= cp /\ l <= cp /\
-                              l = match k with IB => n | _ => 0 end).
-  { intros s1 o1 E1. apply give_fresh_Inv with (k := k) in E1; [|assumption|destruct k; cbn; lia].
+    Inv k s' /\ class_res k n o).
+  { intros s1 o1 E1. apply give_fresh_Inv with (k := k) in E1;
+      [|assumption|apply fresh_wf; destruct k; lia].
     destruct E1 as [I1 ->]. split; [assumption|]. unfold obs_of; cbn.
-    do 3 eexists. split; [reflexivity|]. destruct k; lia. }
+    do 3 eexists. split; [reflexivity|]. destruct k; repeat split; auto; lia. }
   destruct c as [h|]; [|auto].
   destruct (take_pooled idx h (pooled s)) as [[b rest]|] eqn:T; [|auto].
   destruct I as [I1 I2].
-  destruct (take_pooled_Forall _ _ _ _ _ _ I1 T) as [[P1 [P2 P3]] Fr].
+  destruct (take_pooled_Forall _ _ _ _ _ _ I1 T) as [(P1 & P2 & P3 & [W1 W2] & P5) Fr].
   destruct k.
   - inversion E; subst. split.
-    + split; cbn; [assumption|]. constructor; [unfold held_ok; cbn; lia|assumption].
-    + unfold obs_of. do 3 eexists. split; [reflexivity|]. lia.
+    + split; cbn; [assumption|]. constructor; [split; cbn; [lia|assumption]|assumption].
+    + unfold obs_of. do 3 eexists. split; [reflexivity|]. repeat split; try lia. discriminate.
   - inversion E; subst. split.
-    + split; cbn; [assumption|]. constructor; [unfold held_ok; cbn; lia|assumption].
-    + unfold obs_of; cbn. do 3 eexists. split; [reflexivity|]. lia.
+    + split; cbn; [assumption|]. constructor; [split; cbn; [lia|assumption]|assumption].
+    + unfold obs_of; cbn. do 3 eexists. split; [reflexivity|]. repeat split; try lia. discriminate.
   - destruct (N.leb_spec n (b_cap b)); [|lia].
     inversion E; subst. split.
-    + split; cbn; [assumption|]. constructor; [unfold held_ok; cbn; lia|assumption].
-    + unfold obs_of; cbn. do 3 eexists. split; [reflexivity|]. lia.
+    + split; cbn; [assumption|]. constructor; [split; cbn; [lia|assumption]|assumption].
+    + unfold obs_of; cbn. do 3 eexists. split; [reflexivity|]. repeat split; try lia.
+      intros _. apply all_empty_lowest. auto.
 Qed.
 
 Lemma u32_small : forall n, (0 <= n < 4294967296)%Z -> u32 n = Z.to_N n.
 Proof. intros n H. unfold u32. rewrite Z.mod_small by lia. reflexivity. Qed.
 
+Lemma fresh_good : forall k s c l s' o n,
+  Inv k s -> l <= c -> (n <= Z.of_N c)%Z ->
+  match k with IB => ((0 < n)%Z -> Z.of_N l = n) | _ => l = 0 end ->
+  give_fresh s (mkBuf c l []) = (s', o) -> Inv k s' /\ good k n o.
+Proof.
+  intros k s c l s' o n I Hl Hc Hk E.
+  apply give_fresh_Inv with (k := k) in E; [|assumption|apply fresh_wf; assumption].
+  destruct E as [I' ->]. split; [assumption|]. unfold obs_of; cbn.
+  split; cbn; [repeat split; assumption|intros i Hi; discriminate].
+Qed.
+
+Lemma class_res_good : forall k n n' o,
+  class_res k n' o -> (n <= Z.of_N n')%Z -> ((0 < n)%Z -> Z.of_N n' = n) -> good k n o.
+Proof.
+  intros k n n' o (cp & l & d & -> & A & B & C & D) H1 H2. split; cbn.
+  - repeat split; try lia. destruct k; try assumption. intro. rewrite C. auto.
+  - destruct k; intros i Hi; try lia. rewrite D in Hi by reflexivity. discriminate.
+Qed.
+
 Lemma get_ok : forall k s n c s' o,
-  Inv k s -> (0 <= n)%Z -> get k s n c = (s', o) -> Inv k s' /\ size_ok k n o.
+  Inv k s -> (0 <= n)%Z -> get k s n c = (s', o) -> Inv k s' /\ good k n o.
 Proof.
   intros k s n c s' o I Hn E. destruct k; cbn [get] in E.
   - (* BB *)
     destruct (Z.eqb_spec n 0).
-    + apply give_fresh_Inv with (k := BB) in E; [|assumption|cbn; lia].
-      destruct E as [I' ->]. split; [assumption|]. cbn. lia.
+    + eapply fresh_good in E; eauto; cbn; lia.
     + destruct (Z.ltb_spec (Z.of_N (maxlen BB)) n).
-      * apply give_fresh_Inv with (k := BB) in E; [|assumption|cbn; lia].
-        destruct E as [I' ->]. split; [assumption|]. cbn. lia.
+      * eapply fresh_good in E; eauto; cbn; lia.
       * cbn [maxlen] in H.
         rewrite u32_small in E by lia.
         apply get_class_ok in E; try assumption.
-        -- destruct E as [I' (cp & l & d & -> & A & B & C)]. split; [assumption|]. cbn. lia.
+        -- destruct E as [I' R]. split; [assumption|]. eapply class_res_good; eauto; lia.
         -- apply (next_log2_class BB); cbn [maxlen]; lia.
         -- apply (next_log2_ge BB). lia.
   - (* BS *)
     set (n' := if (n <=? 0)%Z then default_len else Z.to_N n) in *.
-    assert (Hn' : (n <= Z.of_N n')%Z /\ 1 <= n').
+    assert (Hn' : (n <= Z.of_N n')%Z /\ 1 <= n' /\ ((0 < n)%Z -> Z.of_N n' = n)).
     { subst n'. unfold default_len. destruct (Z.leb_spec n 0); lia. }
     destruct (N.ltb_spec (maxlen BS) n').
-    + apply give_fresh_Inv with (k := BS) in E; [|assumption|cbn; lia].
-      destruct E as [I' ->]. split; [assumption|]. cbn. lia.
+    + eapply fresh_good in E; eauto; cbn; lia.
     + cbn [maxlen] in H. rewrite u32_small in E by lia. rewrite N2Z.id in E.
       apply get_class_ok in E; try assumption.
-      * destruct E as [I' (cp & l & d & -> & A & B & C)]. split; [assumption|]. cbn. lia.
+      * destruct E as [I' R]. split; [assumption|]. eapply class_res_good; eauto; lia.
       * apply (next_log2_class BS); cbn [maxlen]; lia.
       * apply (next_log2_ge BS). lia.
   - (* IB *)
@@ -231,11 +286,10 @@ Proof.
     assert (Hn' : (n <= Z.of_N n')%Z /\ 1 <= n' /\ ((0 < n)%Z -> Z.of_N n' = n)).
     { subst n'. unfold default_len. destruct (Z.leb_spec n 0); lia. }
     destruct (N.ltb_spec (maxlen IB) n').
-    + apply give_fresh_Inv with (k := IB) in E; [|assumption|cbn; lia].
-      destruct E as [I' ->]. split; [assumption|]. cbn. lia.
+    + eapply fresh_good in E; eauto; cbn; lia.
     + cbn [maxlen] in H. rewrite u32_small in E by lia. rewrite N2Z.id in E.
       apply get_class_ok in E; try assumption.
-      * destruct E as [I' (cp & l & d & -> & A & B & C)]. split; [assumption|]. cbn. lia.
+      * destruct E as [I' R]. split; [assumption|]. eapply class_res_good; eauto; lia.
       * apply (next_log2_class IB); cbn [maxlen]; lia.
       * apply (next_log2_ge IB). lia.
 Qed.
@@ -251,12 +305,12 @@ Proof.
     unfold get_class in E.
     destruct (nclasses BB <=? next_log2_bb (u32 n)); [inversion E; subst; assumption|].
     destruct I as [I1 I2].
-    assert (FR : forall b s1 o1, b_len b <= b_cap b -> give_fresh s b = (s1, o1) -> Inv BB s1).
-    { intros b s1 o1 Hb E1. eapply give_fresh_Inv in E1; [apply E1|split; assumption|assumption]. }
-    destruct c as [h|]; [|eapply FR; [|exact E]; cbn; lia].
-    destruct (take_pooled _ h (pooled s)) as [[b rest]|] eqn:T; [|eapply FR; [|exact E]; cbn; lia].
-    destruct (take_pooled_Forall _ _ _ _ _ _ I1 T) as [[P1 [P2 P3]] Fr].
-    inversion E; subst. split; cbn; [assumption|]. constructor; [unfold held_ok; cbn; lia|assumption].
+    assert (FR : forall c l s1 o1, l <= c -> give_fresh s (mkBuf c l []) = (s1, o1) -> Inv BB s1).
+    { intros c0 l s1 o1 Hb E1. eapply give_fresh_Inv in E1; [apply E1|split; assumption|apply fresh_wf; assumption]. }
+    destruct c as [h|]; [|eapply FR; [|exact E]; lia].
+    destruct (take_pooled _ h (pooled s)) as [[b rest]|] eqn:T; [|eapply FR; [|exact E]; lia].
+    destruct (take_pooled_Forall _ _ _ _ _ _ I1 T) as [(P1 & P2 & P3 & W & P5) Fr].
+    inversion E; subst. split; cbn; [assumption|]. constructor; [exact W|assumption].
   - destruct (Z.leb_spec n 0); [|lia].
     assert (E0 : get BS s 0 c = (s', o)).
     { cbn [get]. exact E. }
@@ -271,21 +325,29 @@ Lemma put_Inv : forall k s h, Inv k s -> Inv k (put k s h).
 Proof.
   intros k s h [I1 I2]. unfold put.
   destruct (take_held h (held s)) as [[b rest]|] eqn:T; [|split; assumption].
-  destruct (take_held_Forall _ _ _ _ _ I2 T) as [Hb Fr].
+  destruct (take_held_Forall _ _ _ _ _ I2 T) as [[Hb Hd] Fr]. cbn [snd] in Hb, Hd.
   destruct (N.eqb_spec (b_cap b) 0); cbn [orb]; [split; assumption|].
   destruct (N.ltb_spec (maxlen k) (b_cap b)); [split; assumption|].
   split; cbn; [|assumption].
   constructor; [|assumption]. cbn.
-  split; [apply prev_log2_class; lia|]. split; [apply prev_log2_le; lia|reflexivity].
+  split; [apply prev_log2_class; lia|]. split; [apply prev_log2_le; lia|]. split; [reflexivity|].
+  split.
+  - split; cbn; [lia|]. destruct k; [assumption|apply clear_below_keeps; assumption|].
+    apply all_empty_below, clear_below_empty; assumption.
+  - intros ->. apply clear_below_empty; assumption.
 Qed.
 
-Lemma apply_mut_wf : forall b m, b_len b <= b_cap b -> b_len (apply_mut b m) <= b_cap (apply_mut b m).
+Lemma apply_mut_wf : forall b m, buf_wf b -> buf_wf (apply_mut b m).
 Proof.
-  intros b m H. destruct m; cbn [apply_mut].
-  - destruct (i <? b_len b); cbn; assumption.
-  - cbn; assumption.
-  - destruct (N.leb_spec k (b_cap b)); cbn; lia.
-  - destruct (N.leb_spec l c); cbn; lia.
+  intros b m [H D]. destruct m; cbn [apply_mut].
+  - destruct (N.ltb_spec i (b_len b)); [|split; assumption]. split; cbn [b_cap b_len b_dirty]; [assumption|].
+    cbn [dirty_below forallb]. apply andb_true_intro. split; [lia|exact D].
+  - split; cbn [b_cap b_len b_dirty]; [assumption|].
+    cbn [dirty_below forallb]. apply andb_true_intro. split; [lia|exact D].
+  - destruct (N.leb_spec k (b_cap b)); [|split; assumption]. split; cbn; [lia|exact D].
+  - destruct (N.leb_spec l c); [|split; assumption]. split; cbn [b_cap b_len b_dirty]; [lia|].
+    destruct dirty; cbn [dirty_below forallb]; [|reflexivity].
+    apply andb_true_intro. split; [lia|reflexivity].
 Qed.
 
 Lemma mutate_Inv : forall k s h m, Inv k s -> Inv k (mutate s h m).
@@ -294,7 +356,7 @@ Proof.
   destruct (take_held h (held s)) as [[b rest]|] eqn:T; [|split; assumption].
   destruct (take_held_Forall _ _ _ _ _ I2 T) as [Hb Fr].
   split; cbn; [assumption|]. constructor; [|assumption].
-  unfold held_ok in *; cbn in *. apply apply_mut_wf; assumption.
+  unfold held_ok in *; cbn [snd] in *. apply apply_mut_wf; assumption.
 Qed.
 
 Lemma step_Inv : forall k s o, Inv k s -> Inv k (fst (step k s o)).
@@ -314,8 +376,8 @@ Proof.
   apply IH. apply step_Inv; assumption.
 Qed.
 
-Lemma outs_size_ok_from : forall k ops s n o,
-  Inv k s -> (0 <= n)%Z -> In (n, o) (outs_from k s ops) -> size_ok k n o.
+Lemma outs_good_from : forall k ops s n o,
+  Inv k s -> (0 <= n)%Z -> In (n, o) (outs_from k s ops) -> good k n o.
 Proof.
   induction ops as [|op ops IH]; intros s n o I Hn Hin; cbn [outs_from] in Hin; [contradiction|].
   pose proof (step_Inv k s op I) as I'.
@@ -330,175 +392,34 @@ Proof.
   - eapply IH; eauto.
 Qed.
 
-Theorem outs_size_ok : forall k ops n o,
-  (0 <= n)%Z -> In (n, o) (outs k ops) -> size_ok k n o.
-Proof. intros. eapply outs_size_ok_from; eauto using Inv_init. Qed.
+(* THE property, for every start state satisfying the invariant (in
+   particular the empty pools a process starts with) *)
+Theorem outs_good : forall k ops n o,
+  (0 <= n)%Z -> In (n, o) (outs k ops) -> good k n o.
+Proof. intros. eapply outs_good_from; eauto using Inv_init. Qed.
 
 Theorem pool_inv : forall k ops, Inv k (final_from k init ops).
 Proof. intros. apply final_Inv, Inv_init. Qed.
 
-(* byte buffers and byte-slice lists: len = 0, so nothing stale is visible *)
-Theorem bytes_good : forall k, k <> IB -> forall ops n o,
-  (0 <= n)%Z -> In (n, o) (outs k ops) -> good k n o.
-Proof.
-  intros k Hk ops n o Hn Hin. pose proof (outs_size_ok k ops n o Hn Hin) as S.
-  split; [assumption|]. destruct o as [|c l d]; cbn in *; [trivial|].
-  destruct k; try congruence; intros i _; lia.
-Qed.
-
 (* ------------------------------------------------------------------ *)
-(* item buffers: cleanliness                                           *)
+(* Before the fix (commit beefe1b7) putItemBuf cleared only B[0:len]:  *)
+(* a buffer Put after being re-sliced shorter came back dirty.         *)
 
-Definition all_empty (d : list (N * N)) : Prop :=
-  Forall (fun '(lo, hi) => hi <= lo) d.
-
-Lemma all_empty_lowest : forall d, all_empty d -> lowest_dirty d = None.
+Theorem item_prefix_clear_refuted :
+  exists s1 s2 o,
+    get IB init 4 None = (s1, ObsBuf 4 4 None) /\
+    get IB (put_item_prefix_clear (mutate (mutate s1 0 MFill) 0 (MReslice 0)) 0) 4 (Some 0) = (s2, o) /\
+    ~ good IB 4 o.
 Proof.
-  induction 1 as [|[lo hi] d H F IH]; cbn [lowest_dirty]; [reflexivity|].
-  rewrite IH. destruct (N.ltb_spec lo hi); [lia|reflexivity].
+  eexists. eexists. eexists. split; [vm_compute; reflexivity|]. split; [vm_compute; reflexivity|].
+  intros [_ V]. cbn in V. specialize (V 0 eq_refl). lia.
 Qed.
 
-Lemma clear_below_empty : forall len d, dirty_below len d = true -> all_empty (clear_below len d).
-Proof.
-  induction d as [|[lo hi] d IH]; cbn [dirty_below forallb clear_below map]; intro H; [constructor|].
-  apply andb_prop in H. destruct H as [H1 H2]. constructor; [lia|apply IH; assumption].
-Qed.
-
-Definition pooled_clean (e : N * N * buf) : Prop := let '(_, _, b) := e in all_empty (b_dirty b).
-Definition InvC (s : st) : Prop := Forall pooled_clean (pooled s).
-
-Lemma get_clean : forall s n c s' o,
-  InvC s -> get IB s n c = (s', o) ->
-  InvC s' /\ match o with ObsPanic => True | ObsBuf _ _ d => d = None end.
-Proof.
-  intros s n c s' o I E. cbn [get] in E.
-  set (n' := if (n <=? 0)%Z then default_len else Z.to_N n) in *.
-  assert (FR : forall b s1 o1, b_dirty b = [] -> give_fresh s b = (s1, o1) ->
-            InvC s1 /\ match o1 with ObsPanic => True | ObsBuf _ _ d => d = None end).
-  { intros b s1 o1 Hb E1. unfold give_fresh in E1. inversion E1; subst.
-    split; [exact I|]. unfold obs_of. rewrite Hb. reflexivity. }
-  destruct (maxlen IB <? n'); [eapply FR; [|exact E]; reflexivity|].
-  unfold get_class in E.
-  destruct (nclasses IB <=? _); [inversion E; subst; auto|].
-  destruct c as [h|]; [|eapply FR; [|exact E]; reflexivity].
-  destruct (take_pooled _ h (pooled s)) as [[b rest]|] eqn:T; [|eapply FR; [|exact E]; reflexivity].
-  destruct (take_pooled_Forall _ _ _ _ _ _ I T) as [Pb Fr]. cbn in Pb.
-  destruct (n' <=? b_cap b); inversion E; subst; (split; [exact Fr|]); [|trivial].
-  unfold obs_of; cbn. apply all_empty_lowest; assumption.
-Qed.
-
-Lemma put_clean : forall s h, InvC s -> put_covered s (OPut h) = true -> InvC (put IB s h).
-Proof.
-  intros s h I C. unfold put. cbn [put_covered] in C.
-  destruct (take_held h (held s)) as [[b rest]|]; [|assumption].
-  destruct ((b_cap b =? 0) || (maxlen IB <? b_cap b)); [assumption|].
-  constructor; [|assumption]. cbn. apply clear_below_empty; assumption.
-Qed.
-
-Lemma mutate_clean : forall s h m, InvC s -> InvC (mutate s h m).
-Proof.
-  intros s h m I. unfold mutate. destruct (take_held h (held s)) as [[b rest]|]; assumption.
-Qed.
-
-Lemma item_clean_from : forall ops s n o,
-  InvC s -> covered_from IB s ops = true -> In (n, o) (outs_from IB s ops) -> visible_clean o.
-Proof.
-  induction ops as [|op ops IH]; intros s n o I C Hin; cbn [outs_from] in Hin; [contradiction|].
-  cbn [covered_from] in C. apply andb_prop in C. destruct C as [C1 C2].
-  destruct op; cbn [step] in *.
-  - destruct (get IB s n0 choice) as [s1 r1] eqn:G. cbn [fst] in *.
-    destruct (get_clean _ _ _ _ _ I G) as [I1 Hd].
-    destruct Hin as [E|Hin]; [|eapply IH; eauto].
-    injection E as E1 E2. rewrite <- E2. destruct r1; cbn; [trivial|].
-    intros i Hi. rewrite Hd in Hi. discriminate.
-  - cbn [fst] in *. eapply IH; [|exact C2|exact Hin]. apply put_clean; assumption.
-  - cbn [fst] in *. eapply IH; [|exact C2|exact Hin]. apply mutate_clean; assumption.
-Qed.
-
-Theorem item_good : forall ops,
-  covered_from IB init ops = true ->
-  forall n o, (0 <= n)%Z -> In (n, o) (outs IB ops) -> good IB n o.
-Proof.
-  intros ops C n o Hn Hin. split.
-  - eapply outs_size_ok; eauto.
-  - eapply item_clean_from; eauto. constructor.
-Qed.
-
-(* the writer.go discipline implies every Put is covered *)
-Definition held_below (e : N * buf) : Prop := dirty_below (b_len (snd e)) (b_dirty (snd e)) = true.
-Definition InvH (s : st) : Prop := Forall held_below (held s).
-
-Lemma all_empty_below : forall len d, all_empty d -> dirty_below len d = true.
-Proof.
-  induction 1 as [|[lo hi] d H0 F IH]; cbn [dirty_below forallb]; [reflexivity|].
-  apply andb_true_intro. split; [lia|exact IH].
-Qed.
-
-Lemma get_held_below : forall s n c s' o,
-  InvC s -> InvH s -> get IB s n c = (s', o) -> InvH s'.
-Proof.
-  intros s n c s' o I H E. cbn [get] in E.
-  set (n' := if (n <=? 0)%Z then default_len else Z.to_N n) in *.
-  assert (FR : forall b s1 o1, b_dirty b = [] -> give_fresh s b = (s1, o1) -> InvH s1).
-  { intros b s1 o1 Hb E1. unfold give_fresh in E1. inversion E1; subst.
-    constructor; [|exact H]. unfold held_below; cbn. rewrite Hb. reflexivity. }
-  destruct (maxlen IB <? n'); [eapply FR; [|exact E]; reflexivity|].
-  unfold get_class in E.
-  destruct (nclasses IB <=? _); [inversion E; subst; auto|].
-  destruct c as [h|]; [|eapply FR; [|exact E]; reflexivity].
-  destruct (take_pooled _ h (pooled s)) as [[b rest]|] eqn:T; [|eapply FR; [|exact E]; reflexivity].
-  destruct (take_pooled_Forall _ _ _ _ _ _ I T) as [Pb Fr]. cbn in Pb.
-  destruct (n' <=? b_cap b); inversion E; subst; [|exact H].
-  constructor; [|exact H]. unfold held_below; cbn. apply all_empty_below; assumption.
-Qed.
-
-Lemma discipline_covered_from : forall ops s,
-  InvC s -> InvH s -> forallb no_reslice_op ops = true -> covered_from IB s ops = true.
-Proof.
-  induction ops as [|op ops IH]; intros s I H D; [reflexivity|].
-  cbn [forallb] in D. apply andb_prop in D. destruct D as [D1 D2].
-  cbn [covered_from]. apply andb_true_intro.
-  destruct op; cbn [step put_covered].
-  - split; [reflexivity|].
-    destruct (get IB s n choice) as [s1 r1] eqn:G. cbn [fst].
-    apply IH; [eapply get_clean; eauto|eapply get_held_below; eauto|assumption].
-  - assert (C : put_covered s (OPut h) = true).
-    { cbn [put_covered]. destruct (take_held h (held s)) as [[b rest]|] eqn:T; [|reflexivity].
-      destruct (take_held_Forall _ _ _ _ _ H T) as [Hb _]. exact Hb. }
-    split; [exact C|]. cbn [fst].
-    apply IH; [apply put_clean; assumption| |assumption].
-    unfold put, InvH. destruct (take_held h (held s)) as [[b rest]|] eqn:T; [|exact H].
-    destruct (take_held_Forall _ _ _ _ _ H T) as [_ Fr].
-    destruct ((b_cap b =? 0) || (maxlen IB <? b_cap b)); exact Fr.
-  - split; [reflexivity|]. cbn [fst].
-    apply IH; [apply mutate_clean; assumption| |assumption].
-    unfold mutate, InvH. destruct (take_held h (held s)) as [[b rest]|] eqn:T; [|exact H].
-    destruct (take_held_Forall _ _ _ _ _ H T) as [Hb Fr].
-    constructor; [|exact Fr]. unfold held_below in *; cbn [snd] in *.
-    destruct m; cbn [no_reslice_op] in D1; try discriminate; cbn [apply_mut].
-    + destruct (N.ltb_spec i (b_len b)); [|exact Hb]. cbn [b_len b_dirty dirty_below forallb].
-      apply andb_true_intro. split; [lia|exact Hb].
-    + cbn [b_len b_dirty dirty_below forallb]. apply andb_true_intro. split; [lia|exact Hb].
-Qed.
-
-Theorem discipline_covered : forall ops,
-  forallb no_reslice_op ops = true -> covered_from IB init ops = true.
-Proof. intros. apply discipline_covered_from; [constructor|constructor|assumption]. Qed.
-
-(* Without the discipline the item pool does hand out stale items: the
-   clearing loop in putItemBuf only covers B[0:len]. *)
-Definition dirty_witness : list op :=
-  [OGet 4 None; OMut 0 MFill; OMut 0 (MReslice 0); OPut 0; OGet 4 (Some 0)].
-
-Theorem item_dirty_refuted :
-  exists ops n o, legal_from IB init ops = true /\ (0 <= n)%Z /\
-                  In (n, o) (outs IB ops) /\ ~ good IB n o.
-Proof.
-  exists dirty_witness, 4%Z, (ObsBuf 4 4 (Some 0)).
-  split; [vm_compute; reflexivity|]. split; [lia|]. split.
-  - vm_compute. right. left. reflexivity.
-  - intros [_ V]. cbn in V. specialize (V 0 eq_refl). lia.
-Qed.
+(* the same run on the current code is clean *)
+Example item_same_run_now_clean :
+  outs IB [OGet 4 None; OMut 0 MFill; OMut 0 (MReslice 0); OPut 0; OGet 4 (Some 0)]
+  = [(4%Z, ObsBuf 4 4 None); (4%Z, ObsBuf 4 4 None)].
+Proof. vm_compute. reflexivity. Qed.
 
 (* ------------------------------------------------------------------ *)
 (* the oracle decides the spec                                         *)
